@@ -118,6 +118,25 @@ theorem C10_report_model_eq_generated (a : Answer) : report a = reportGen a := b
 /-- the code written to the `.sol` file is the code the backend reported -/
 theorem C10_code_echo (a : Answer) : (report a).codeWritten = a.code := rfl
 
+/-- … also in every numbered file `<solstub>N.sol` written for an intermediate / pool solution
+    (`ReportIntermediateSolution`), for every code and any number of such solutions -/
+theorem C10_alt_code_echo (a : Answer) : ∀ c ∈ (report a).altCodes, c = a.code := by
+  unfold report
+  intro c hc
+  by_cases h : a.solStub = true
+  · simp only [h, if_true] at hc; exact (List.mem_replicate.mp hc).2
+  · simp only [h] at hc; simp at hc
+
+/-- one numbered file per reported intermediate solution iff a solution stub is set -/
+theorem C10_alt_files_count (a : Answer) :
+    (report a).altCodes.length = if a.solStub = true then a.nAlt else 0 := by
+  unfold report
+  by_cases h : a.solStub = true <;> simp [h]
+
+/-- the same through the generated forwarding chain (BackendWithModelManager → model manager → writer) -/
+theorem C10_chain_forwards_code (a : Answer) : finalCodeWritten a = a.code ∧ altCodeWritten a = a.code := by
+  constructor <;> c10_unfold_gen
+
 /-- primal / dual vectors are passed on exactly when the solver returned them -/
 theorem C10_vectors_echo (a : Answer) :
     (report a).primalPassed = a.hasPrimal ∧ (report a).dualPassed = a.hasDual := ⟨rfl, rfl⟩
@@ -135,11 +154,14 @@ theorem C10_no_objective_no_value (a : Answer) (h : a.nObj = 0) : (report a).obj
 theorem C10_witness_solved : isProblemSolved 0 = true ∧ isProblemSolved 99 = true ∧ isProblemSolved 100 = false := by decide
 theorem C10_witness_ranges : classify 402 = .limitFeas ∧ classify 1000 = .unclassified ∧ classify (-1) = .unclassified := by decide
 theorem C10_witness_objective :
-    (report ⟨0, 1, true, true, false⟩).objectiveShown = true ∧ (report ⟨250, 1, true, false, false⟩).objectiveShown = false ∧
-    (report ⟨0, 0, true, true, false⟩).objectiveShown = false := by decide
-theorem C10_witness_fixed : (report ⟨402, 1, true, false, false⟩).objectiveShown = true ∧ (report ⟨300, 1, false, false, false⟩).objectiveShown = true ∧
+    (report { code := 0, nObj := 1, hasPrimal := true, hasDual := true }).objectiveShown = true ∧ (report { code := 250, nObj := 1, hasPrimal := true, hasDual := false }).objectiveShown = false ∧
+    (report { code := 0, nObj := 0, hasPrimal := true, hasDual := true }).objectiveShown = false := by decide
+theorem C10_witness_fixed : (report { code := 402, nObj := 1, hasPrimal := true, hasDual := false }).objectiveShown = true ∧ (report { code := 300, nObj := 1, hasPrimal := false, hasDual := false }).objectiveShown = true ∧
     isProblemInfeasible 299 = true := by decide
-theorem C10_witness_code : (report ⟨567, 0, false, true, false⟩).codeWritten = 567 := by decide
+theorem C10_witness_code : (report { code := 567, nObj := 0, hasPrimal := false, hasDual := true }).codeWritten = 567 := by decide
+theorem C10_witness_alt :
+    (report { code := 402, nObj := 1, hasPrimal := true, hasDual := true, nAlt := 2, solStub := true }).altCodes = [402, 402] ∧
+    (report { code := 402, nObj := 1, hasPrimal := true, hasDual := true, nAlt := 2, solStub := false }).altCodes = [] := by decide
 theorem C10_witness_infeasible : ∃ c, documented c = .infeasible ∧ isProblemInfeasible c = true := ⟨200, by decide⟩
 
 end MpVerif.C10
